@@ -63,14 +63,25 @@ def case_planestrain(fam2, geometry, rep):
     return fn
 
 
-def axi_energy(field, um, vals):
-    """Oracle-side strain energy of the revolved body: sum_q W(F_q) 2 pi R_q dV_q."""
-    f = copy.deepcopy(field)
-    f[0].values[:] = vals
-    F = f.extract()[0]
+def axi_energy(field, um, vals, ngeo=None):
+    """Oracle-side strain energy of the revolved body: sum_q W(F_q) 2 pi R_q dV_q. The deformation gradient is built here
+    (in-plane part from the region's shape-function gradients, hoop stretch 1 + u_r / R) and the radius is interpolated with
+    the functions that carry the geometry (the vertex functions of a bubble-enriched cell), not taken from the field."""
+    reg = field.region
+    cells = reg.mesh.cells
+    q, c = reg.dV.shape
+    n = reg.h.shape[0]
+    ngeo = n if ngeo is None else ngeo  # MINI: three vertices carry the geometry, the fourth unknown is the bubble
+    h = np.broadcast_to(reg.h, (n, q, c))
+    X = reg.mesh.points
+    R = np.einsum("ca,aqc->qc", X[:, 1][cells[:, :ngeo]], h[:ngeo])
+    ur = np.einsum("ca,aqc->qc", vals[:, 1][cells], h)
+    F = np.zeros((3, 3, q, c))
+    F[:2, :2] = np.einsum("cai,ajqc->ijqc", vals[cells], np.broadcast_to(reg.dhdX, (n, 2, q, c)))
+    F[0, 0] += 1
+    F[1, 1] += 1
+    F[2, 2] = 1 + ur / R
     W = um.function([F, None])[0]
-    reg = f.region
-    R = np.einsum("ca,aqc->qc", reg.mesh.points[:, 1][reg.mesh.cells], np.broadcast_to(reg.h, (reg.h.shape[0], reg.h.shape[1], reg.mesh.ncells)))
     return float((W * 2 * np.pi * R * reg.dV).sum())
 
 
@@ -89,11 +100,12 @@ def case_axisymmetric_energy(fam, rep):
         r = solid.assemble.vector(field).toarray().ravel()
         g = np.zeros(v0.size)
         errs = []
+        ng = 3 if fam == "triangleMINI" else None
         for h in (2e-5, 1e-5):
             for k in range(v0.size):
                 d = np.zeros(v0.size)
                 d[k] = h
-                g[k] = (axi_energy(field, um, v0 + d.reshape(v0.shape)) - axi_energy(field, um, v0 - d.reshape(v0.shape))) / (2 * h)
+                g[k] = (axi_energy(field, um, v0 + d.reshape(v0.shape), ng) - axi_energy(field, um, v0 - d.reshape(v0.shape), ng)) / (2 * h)
             errs.append(maxabs(r - g) / max(maxabs(g), 1e-300))
         if errs[1] > 2e-6 and errs[1] < 0.35 * errs[0]:
             run.skip("reduced.axisymmetric", "finite-difference error still shrinking")
@@ -279,7 +291,7 @@ def cases(tier, seed):
         for geo in ("undistorted", "distorted", "affine"):
             for rep in range(reps):
                 out.append(("planestrain:%s:%s:%d" % (fam2, geo, rep), case_planestrain(fam2, geo, rep)))
-    for fam in ("quad", "quad8", "quad9", "triangle", "triangle6"):
+    for fam in ("quad", "quad8", "quad9", "triangle", "triangle6", "triangleMINI"):
         for rep in range(reps):
             out.append(("axi-energy:%s:%d" % (fam, rep), case_axisymmetric_energy(fam, rep)))
     for rep in range(1 if tier == "quick" else 4):
@@ -296,7 +308,7 @@ def cases(tier, seed):
 SPEC = {
     "required_units": ["planestrain:force:quad", "planestrain:force:quad8", "planestrain:force:quad9", "planestrain:stiffness:quad",
                        "planestrain:stiffness:quad8", "planestrain:stiffness:quad9", "axisymmetric:energy:quad", "axisymmetric:energy:quad8",
-                       "axisymmetric:energy:triangle", "axisymmetric:revolve-convergence", "condensed:u:3d", "condensed:u:planestrain",
+                       "axisymmetric:energy:triangle", "axisymmetric:energy:triangleMINI", "axisymmetric:revolve-convergence", "condensed:u:3d", "condensed:u:planestrain",
                        "condensed:u:axisymmetric", "condensed:p:3d", "condensed:J:3d", "condensed:bulk:1", "condensed:bulk:2", "condensed:bulk:3", "condensed:state:3d", "condensed:restart:3d", "condensed:restart:axisymmetric",
                        "planestrain:parallel", "condensed:variant:NeoHooke|ThreeFieldVariation", "condensed:variant:tt.yeoh|NearlyIncompressible",
                        "uniform:vector", "uniform:matrix", "uniform:vector:axisymmetric", "uniform:matrix:axisymmetric", "uniform:constant:linear-elastic-matrix", "uniform:constant:mass", "uniform:constant:body-force"],
